@@ -349,8 +349,10 @@ impl Scenario for C06 {
         }
     }
     fn generate(&self, rng: &mut Rng, tier: Tier, _idx: u64) -> C06Plan {
-        let n_ac = *rng.pick(&[1usize, 1, 2, 2, 3, 4]);
+        // (1 run in 50: more aircraft than the property's 1-4, to load the state map)
+        let n_ac = if rng.chance(0.02) { rng.usize(8, 40) } else { *rng.pick(&[1usize, 1, 2, 2, 3, 4]) };
         let max_reports = match tier {
+            Tier::Quick if n_ac > 4 => 25,
             Tier::Quick => 120,
             Tier::Thorough => {
                 if rng.chance(0.05) {
